@@ -127,7 +127,7 @@ def judgeArea (tag : String) (p : Poly) (rhs : Tok) : String :=
   | [a, o] =>
     match fvOfTok a, fvOfTok o with
     | some (.fin ia), some (.fin io) =>
-      let exact := tag == "g"
+      let exact := tag.startsWith "g"
       let scale := Spec.sumR (p.map Spec.measure)
       let agree (x y : Rat) : Bool := if exact then x == y else close x y scale
       let m := polygonArea p
@@ -152,7 +152,7 @@ def judgeMArea (tag : String) (mp : MPoly) (rhs : Tok) : String :=
   | [a, o] =>
     match fvOfTok a, fvOfTok o with
     | some (.fin ia), some (.fin io) =>
-      let exact := tag == "g"
+      let exact := tag.startsWith "g"
       let scale := Spec.sumR (mp.flatten.map Spec.measure)
       let agree (x y : Rat) : Bool := if exact then x == y else close x y scale
       let m := multiPolygonArea mp
@@ -176,7 +176,7 @@ def judgeCent (tag : String) (p : Poly) (rhs : Tok) : String :=
   let cls := s!"cent-{tag}-{if valid then "valid" else "invalid"}-{polyTag p}"
   let r1 := pRes (rhs.takeWhile (· ≠ "|"))
   let r2 := pRes (rhs.drop ((rhs.takeWhile (· ≠ "|")).length + 1))
-  let scale := maxAbs p + 1
+  let scale := maxAbs p
   let m := polygonCentroid p
   let mo : Except Fault (FQ × FQ) := .ok (opCentroid p)
   let wantS := Spec.centroidSigned c
@@ -199,7 +199,7 @@ def judgeMCent (tag : String) (mp : MPoly) (rhs : Tok) : String :=
   let inStatement := valid && closed
   let cls := s!"mcent-{tag}-{if valid then "valid" else "invalid"}-{mpolyTag mp}"
   let r := pRes rhs
-  let scale := maxAbs mp.flatten + 1
+  let scale := maxAbs mp.flatten
   let m : Except Fault (FQ × FQ) := .ok (multiPolygonCentroid mp)
   let want := Spec.mcentroid c
   if inStatement && !centIs r want scale then
@@ -247,7 +247,7 @@ def judgeDist (tag : String) (kind : String) (q : Pt UInt64) (ls : List (List (P
     let ia := Float.ofBits a
     let want : Option Rat := rl.foldl (fun m l => match m, Spec.lineDist2 rq l with
       | none, x => x | x, none => x | some x, some y => some (min x y)) none
-    let S := maxAbs ([rq] :: rl) + 1
+    let S := maxAbs ([rq] :: rl)
     let where_ : String := match want, fvOfBits a with
       | some w, .fin d => if w == 0 then "on" else if d == 0 then "zero" else "off"
       | none, _ => "nosegment" | _, _ => "nonfinite"
@@ -319,9 +319,14 @@ def judgeBnd (mn mx : Pt UInt64) (rhs : Tok) : String :=
 
 def judgeLine (line : String) : String :=
   let (lhs, rhs) := splitArrow (tokens line)
+  let mods := rhs.filter (·.startsWith "modified:")
+  let rhs := rhs.filter (fun t => !t.startsWith "modified:")
   match lhs with
   | kind :: tag :: rest =>
     if rhs.head? == some "harness-panic" then s!"DIFF {kind} harness-panic" else
+    -- the measures are functions of the shape: a call that changes its receiver (seen by comparing
+    -- the receiver's memory bit for bit before and after) violates the property whatever it returns
+    if !mods.isEmpty then s!"SPEC {kind}-{tag}-receiver-modified {" ".intercalate mods}" else
     match kind with
     | "area" | "cent" =>
       match Proto.pGeom 2 rest with
